@@ -9,8 +9,7 @@ to property C35; `timescale_strict_iff` characterises when.  All statements are 
 linear ordered field (exact arithmetic); the same definitions run at `Float` agree with numba
 bit-for-bit on generated inputs.
 -/
-import TsdateVerif.Proofs.Rescale
-import TsdateVerif.Proofs.DiffArray
+import TsdateVerif.Proofs.RescaleAux
 
 namespace Tsdate.C25
 open Tsdate.Rescale
@@ -19,29 +18,6 @@ set_option linter.unusedSectionVars false
 variable {α : Type} [Inhabited α] [Field α] [LinearOrder α] [IsStrictOrderedRing α]
 
 /-! ### the difference array of `mutational_area` -/
-
-theorem sum_filterMap {β γ : Type} (l : List β) (f : β → Option γ) (g : γ → α) :
-    ((l.filterMap f).map g).sum = (l.map (fun x => match f x with | some y => g y | none => 0)).sum := by
-  induction l with
-  | nil => rfl
-  | cons x t ih =>
-    simp only [List.filterMap_cons, List.map_cons, List.sum_cons]
-    cases h : f x with
-    | none => simp [ih]
-    | some y => simp [ih]
-
-theorem lget_map {β γ : Type} [Inhabited β] [Inhabited γ] (l : List β) (f : β → γ) (i : Nat)
-    (h : i < l.length) : lget (l.map f) i = f (lget l i) := by
-  simp [lget, h]
-
-/-- the contribution of one edge to epoch `k`, stated directly: an edge of positive length whose child
-has index `≤ k` and whose parent has index `> k` (it spans the interval between the `k`-th and `k+1`-th
-distinct node times) contributes `v`, every other edge nothing -/
-def spans (times : List α) (index : List Nat) (e : Edge) (k : Nat) : Prop :=
-  0 < lget times e.p - lget times e.c ∧ lget index e.c ≤ k ∧ k < lget index e.p
-
-instance (times : List α) (index : List Nat) (e : Edge) (k : Nat) : Decidable (spans times index e k) := by
-  unfold spans; infer_instance
 
 /-- **`diffarray_spec`: the difference array + `cumsum` of `mutational_area` equals the direct overlap sum.**
 For every epoch `k` (interval between consecutive distinct node times), the returned `counts[k]` is the
@@ -117,34 +93,42 @@ theorem diffarray_spec (times : List α) (lik : List (α × α)) (edges : List E
     · simp [hlen]
     · simp [hlen]
 
+/-! ### what the indices mean: intervals between distinct node times -/
+
+/-- **What "spans" means in terms of times.**  Let `d` be the strictly increasing list of distinct node
+times (so interval `k` is `[d[k], d[k+1]]`).  An edge with in-range endpoints spans interval `k` in the
+sense of `diffarray_spec` (child index `≤ k <` parent index, positive length) iff the parent is strictly
+older than the child and the edge covers the whole interval: `t[child] ≤ d[k]` and `d[k+1] ≤ t[parent]`.
+Together with `diffarray_spec`: `counts[k]`/`offset[k]` are the sums over exactly the edges overlapping
+the `k`-th interval between node times. -/
+theorem spans_iff_covers (times : List α) (lik : List (α × α)) (edges : List Edge) (e : Edge)
+    (hp : e.p < times.length) (hc : e.c < times.length) (k : Nat)
+    (hk : k + 1 < (distinctSorted times).length) :
+    spans times (mutationalArea times lik edges).index e k ↔
+      lget times e.c < lget times e.p ∧ lget times e.c ≤ (distinctSorted times)[k] ∧
+        (distinctSorted times)[k + 1] ≤ lget times e.p := by
+  have hs := sorted_distinctSorted times
+  have hmc : lget times e.c ∈ distinctSorted times := (mem_distinctSorted times _).mpr (lget_mem times e.c hc)
+  have hmp : lget times e.p ∈ distinctSorted times := (mem_distinctSorted times _).mpr (lget_mem times e.p hp)
+  have hidx : (mutationalArea times lik edges).index = times.map (nodeIndex (distinctSorted times)) := rfl
+  unfold spans
+  rw [hidx, lget_map _ _ _ hc, lget_map _ _ _ hp,
+    rank_le_iff _ hs _ hmc k (by omega), lt_rank_iff _ hs _ hmp k hk, sub_pos]
+
+/-- the list of distinct node times is strictly increasing and has exactly the node times as members -/
+theorem distinct_times_spec (times : List α) :
+    (distinctSorted times).Pairwise (· < ·) ∧ ∀ t, t ∈ distinctSorted times ↔ t ∈ times :=
+  ⟨sorted_distinctSorted times, mem_distinctSorted times⟩
+
+/-- `nodes_index[u]` is the position of node `u`'s time among the distinct node times -/
+theorem index_spec (times : List α) (lik : List (α × α)) (edges : List Edge) (u : Nat)
+    (hu : u < times.length) :
+    (distinctSorted times)[lget (mutationalArea times lik edges).index u]? = some (lget times u) := by
+  have hidx : (mutationalArea times lik edges).index = times.map (nodeIndex (distinctSorted times)) := rfl
+  rw [hidx, lget_map _ _ _ hu]
+  exact (nodeIndex_lt_length _ _ ((mem_distinctSorted times _).mpr (lget_mem times u hu))
+    (sorted_distinctSorted times)).2
 /-! ### the piecewise-linear map -/
-
-theorem pre_iff (ob rb : List α) :
-    pwlPre ob rb = true ↔ ob.length = rb.length ∧ Inc ob ∧ Inc rb := by
-  simp [pwlPre, inc_iff, and_assoc]
-
-theorem zip_incZ (ob rb : List α) (h : pwlPre ob rb = true) : IncZ (ob.zip rb) := by
-  obtain ⟨h1, h2, h3⟩ := (pre_iff ob rb).mp h
-  exact incZ_of_inc ob rb h1 h2 h3
-
-theorem zip_fst (ob rb : List α) (h : pwlPre ob rb = true) : (ob.zip rb).map (·.1) = ob := by
-  obtain ⟨h1, _, _⟩ := (pre_iff ob rb).mp h
-  exact List.map_fst_zip (le_of_eq h1)
-
-theorem zip_snd (ob rb : List α) (h : pwlPre ob rb = true) : (ob.zip rb).map (·.2) = rb := by
-  obtain ⟨h1, _, _⟩ := (pre_iff ob rb).mp h
-  exact List.map_snd_zip (le_of_eq h1.symm)
-
-theorem zip_ne (ob rb : List α) (h : pwlPre ob rb = true) (hne : ob ≠ []) : ob.zip rb ≠ [] := by
-  obtain ⟨h1, _, _⟩ := (pre_iff ob rb).mp h
-  match ob, rb, h1, hne with
-  | a :: t, b :: u, _, _ => simp
-
-theorem zip_head (ob rb : List α) (h : pwlPre ob rb = true) (hne : ob ≠ []) :
-    ((ob.zip rb).head (zip_ne ob rb h hne)).1 = ob.head hne := by
-  obtain ⟨h1, _, _⟩ := (pre_iff ob rb).mp h
-  match ob, rb, h1, hne with
-  | a :: t, b :: u, _, _ => simp
 
 /-- **The code's formula is the piecewise-linear interpolant** through `(original_breaks[i],
 rescaled_breaks[i])`, constant after the last break: for every `x` not below the first break,
@@ -280,29 +264,6 @@ theorem compose_monotone (maps : List (List α × List α))
     exact ih (fun m' hm' => hm m' (List.mem_cons_of_mem _ hm')) _ _ hx' hxy'
 
 /-! ### when is the asserted precondition true? (characterises finding F5 of C35) -/
-
-theorem cumsum_head (x : α) (rest : List α) : ∃ t, cumsum (x :: rest) = x :: t := ⟨_, rfl⟩
-
-/-- running sums strictly increase iff every increment is positive -/
-theorem inc_cumsum_iff (x : α) (steps : List α) :
-    Inc (cumsum (x :: steps)) ↔ ∀ s ∈ steps, 0 < s := by
-  induction steps generalizing x with
-  | nil => simp [cumsum_singleton, Inc]
-  | cons y r ih =>
-    rw [cumsum_cons_cons]
-    obtain ⟨t, ht⟩ := cumsum_head (x + y) r
-    have := ih (x + y)
-    rw [ht] at this ⊢
-    simp only [Inc, List.mem_cons, forall_eq_or_imp]
-    rw [this]
-    constructor
-    · rintro ⟨h1, h2⟩; exact ⟨by linarith, h2⟩
-    · rintro ⟨h1, h2⟩; exact ⟨by linarith, h2⟩
-
-/-- consecutive pairs of changepoints -/
-def pairsOf : List Nat → List (Nat × Nat)
-  | i :: j :: rest => (i, j) :: pairsOf (j :: rest)
-  | _ => []
 
 /-- **`timescale_strict_iff`: the rescaled breaks returned by `mutational_timescale` strictly increase
 iff every interval between consecutive changepoints carries a positive total mutation count.**
